@@ -587,11 +587,58 @@ def merge_records(ctx, pieces):
     import dadi.DFE as DFE
     recs = []
     rng = random.Random(ctx.seed + 172)
+    rngm = random.Random(ctx.seed + 1710)
     nid = itertools.count()
     njs = sorted({k[0] for k in pieces})
+    NEAR = [('ulp', None), ('e12', 1e-12), ('e9', 1e-9), ('e6', 1e-6), ('copy', 0.0)]
+
+    def near_duplicate(obj, lay, split, t, eps):
+        """A deep copy of a piece with ONE entry of ONE of its own spectra changed by 1 ulp / a relative eps
+        (eps = 0.0: an identical copy).  Any difference is a conflict; only the identical copy may be absorbed."""
+        import copy
+        o = copy.deepcopy(obj)
+        if eps == 0.0:
+            return o
+        own = [j for j in range(lay.nj) if j % split == t]
+        j = rngm.choice(own)
+        arr = np.ma.getdata(o.spectra[j // lay.n][j % lay.n])
+        cells = [(r, c) for r in range(arr.shape[0]) for c in range(arr.shape[1])
+                 if arr[r, c] != 0 and (r, c) not in ((0, 0), (arr.shape[0] - 1, arr.shape[1] - 1))]
+        r, c = rngm.choice(cells)
+        arr[r, c] = np.nextafter(arr[r, c], np.inf) if eps is None else arr[r, c] * (1.0 + eps)
+        return o
+
+    def emit(nj, split, case, objs, lay0, F):
+        tabs = [lay0.table(o) for o in objs]
+        try:
+            m = DFE.Cache2D.merge(objs)
+            out = {'raised': 'none', 'table': lay0.table(m)}
+        except Exception as e:
+            out = {'raised': type(e).__name__, 'table': []}
+        recs.append({'id': 'mg-%d' % next(nid), 'op': 'merge', 'site': 'Cache2D.merge',
+                     'in': {'nj': nj, 'split': split, 'case': ['%s%d' % c for c in case], 'pieces': tabs, 'F': F},
+                     'out': out})
     for nj in njs:
         lay0 = Layout('2D', nj)
         F = reference_table(lay0)
+        # near-duplicates: a re-run piece that differs in one spectrum entry by 1 ulp, 1e-12, 1e-9, 1e-6 (conflict,
+        # whatever the operand order) or not at all (absorbed); complete sets, so a conflict is the only reason to raise
+        for split in sorted({k[1] for k in pieces if k[0] == nj}):
+            if nj != 9 or (ctx.quick and split > 3):
+                continue
+            full = [('p', t) for t in range(split)]
+            for k, (nm, eps) in enumerate(NEAR):
+                t = k % split
+                o = near_duplicate(pieces[(nj, split, t)], lay0, split, t, eps)
+                variants = [full + [(nm, t)], [(nm, t)] + full]
+                if split > 1:
+                    mid = full[:]
+                    mid.insert(t + 1, (nm, t))           # directly after the piece it duplicates
+                    mid2 = full[:]
+                    mid2.insert(t, (nm, t))              # directly before it
+                    variants += [mid, mid2]
+                for case in variants:
+                    emit(nj, split, case, [pieces[(nj, split, tt)] if kind == 'p' else o for kind, tt in case], lay0, F)
         splits = sorted({k[1] for k in pieces if k[0] == nj})
         alt = {}
         for split in splits:
@@ -1519,7 +1566,11 @@ def quad_records(ctx):
                'run': lambda objs: DFE.mixture(PS + [0.5], None, objs[0], objs[1], PDFs.gamma, PDFs.biv_ind_gamma, 0.375, None),
                'inp': lambda objs: {'theta': rat(0.375), 'ext': True, 'c1': enc_c1(objs[0]), 'pdf1': tab1('gamma', PS[:2], xs1),
                                     'c2': enc_c2(objs[1]), 'pdf2': specG, 'p2d': rat(0.5)}}]
-    session('2d', make2, calls2, [0, 1, 2, 3, 4, 5, 6, 7, 8, 9, 10, 1, 0], [10, 9, 8, 7, 1, 6, 5, 0, 4, 3, 2, 0, 1])
+    # tied parameter vectors: the same first parameter as PS with another second one; equal shapes with unequal scales
+    calls2 += [int2('gamma-tied-scale', 'biv_ind_gamma', [1.0, 4.0, 0.3], 2.5, True),
+               int2('gamma-tied-4par', 'biv_ind_gamma', [1.0, 1.0, 2.0, 0.7], 2.5, True),
+               int2('lognormal-tied-sigma', 'biv_lognormal', [1.0, 0.7, 0.3], 2.5, True)]
+    session('2d', make2, calls2, [0, 1, 11, 12, 13, 2, 3, 4, 5, 6, 7, 8, 9, 10, 1, 0], [10, 9, 8, 7, 13, 12, 1, 11, 6, 5, 0, 4, 3, 2, 0, 1])
 
     # ---- 1-D session ----
     def make1():
@@ -1548,8 +1599,9 @@ def quad_records(ctx):
               int1('fam', 'fam', P1S, 2.5, True), int1('gamma-theta', 'gamma', P1S, 1000.0, True), int1('gamma-noext', 'gamma', P1S, 2.5, False),
               int1('gamma-p2', 'gamma', [0.8, 3.0], 0.375, True), int1('exponential', 'exponential', [2.0], 2.5, True),
               pp1('pointpos-lognormal', 'lognormal', P1S, 2.5, [0.25], [2.5]), pp1('pointpos2-gamma', 'gamma', P1S, 1000.0, [0.125, 0.25], [0.75, 2.5])]
-    oa = list(range(10)) + [1, 0]
-    ob = oa[:10][::-1] + [0, 1]
+    calls1 += [int1('gamma-tied-scale', 'gamma', [2.0, 1.5], 2.5, True), int1('lognormal-tied-sigma', 'lognormal', [2.0, 1.0], 2.5, True)]
+    oa = [0, 10, 1, 11] + list(range(2, 10)) + [1, 0]
+    ob = [9, 8, 7, 6, 5, 4, 3, 2, 11, 1, 10, 0] + [0, 1]
     if not ctx.quick:
         rngs.shuffle(ob)
     session('1d', make1, calls1, oa, ob)
@@ -1619,6 +1671,53 @@ def quad_records(ctx):
         strided = layout in ('strided', 'reversed', 'params-strided')
         add('pdf2d', 'PDFs.' + name + ('(strided)' if strided else ''),
             {'name': name, 'x': rats(xs), 'y': rats(ys), 'params': rats(p), 'layout': layout, 'ref': rats(ref)}, out, cls='fixed/' + layout)
+    # compiled densities in SEQUENCES (the extension module is process-global state): consecutive evaluations that share
+    # the first parameter and differ in the second (same shape, other scale; same mu, other sigma), in the 2/3- and the
+    # 4/5-parameter forms, equal shapes with unequal scales inside ONE call, then back to the first vector.  Every
+    # evaluation is judged against the formula; the first vector evaluated again (twice, at different places of the
+    # sequence) must reproduce its first values bit for bit.
+    rngq = random.Random(ctx.seed + 1711)
+    XS, YS = [0.02, 0.9, 4.0, 55.0], [0.3, 2.0, 17.0]
+    for fam_name, seqs in (('biv_ind_gamma', [[[0.7, 2.0], [0.7, 5.0], [0.7, 0.4, 0.2], [0.7, 0.7, 2.0, 5.0], [0.7, 0.7, 5.0, 2.0, 0.1],
+                                               [2.5, 0.7, 1.0, 3.0], [2.5, 9.0], [0.7, 2.0], [0.7, 9.0], [0.7, 2.0]],
+                                              [[3.0, 3.0, 0.5, 6.0], [3.0, 1.25], [3.0, 1.25, 0.5], [0.2, 1.25], [0.2, 30.0], [3.0, 3.0, 0.5, 6.0],
+                                               [3.0, 3.0, 6.0, 0.5], [3.0, 3.0, 0.5, 6.0]]]),
+                           ('biv_lognormal', [[[1.0, 0.5, 0.3], [1.0, 2.0, 0.3], [1.0, 1.0, 0.5, 2.0, 0.3], [1.0, 1.0, 2.0, 0.5, -0.3],
+                                               [-0.5, 0.5, 0.3], [1.0, 0.5, 0.3], [1.0, 0.5, -0.3], [1.0, 0.5, 0.3]]])):
+        f = getattr(PDFs, fam_name)
+        reff = ref_biv_ind_gamma if fam_name == 'biv_ind_gamma' else ref_biv_lognormal
+        pyf = PDFs.biv_ind_gamma_py if fam_name == 'biv_ind_gamma' else PDFs.biv_lognormal_py
+        for si, seq in enumerate(seqs):
+            if not ctx.quick:
+                seq = seq + [rngq.choice(seq) for _ in range(6)]
+            seen = {}
+            for pos, p in enumerate(seq):
+                scalar = pos % 3 == 2            # quadrature calls the kernel on single points
+                xs, ys = (XS[1:2], YS[1:2]) if scalar else (XS, YS)
+                try:
+                    import warnings
+                    with warnings.catch_warnings():
+                        warnings.simplefilter('ignore')
+                        cv = np.atleast_1d(np.asarray(f(xs[0], ys[0], p) if scalar else f(np.array(xs), np.array(ys), p), dtype=float)).ravel()
+                        pyv = np.atleast_1d(np.asarray(pyf(np.array(xs), np.array(ys), p), dtype=float)).ravel()
+                    out = {'c': rats(cv), 'py': rats(pyv)}
+                except Exception as e:
+                    out = {'raised': type(e).__name__, 'msg': str(e)[:120]}
+                add('pdf2d', 'PDFs.' + fam_name, {'name': fam_name, 'x': rats(xs), 'y': rats(ys), 'params': rats(p), 'layout': 'sequence',
+                                                   'seq': si, 'pos': pos, 'ref': rats([reff(p, x, y) for x in xs for y in ys])},
+                    out, cls='sequence%d/%d' % (si, pos))
+                if not scalar and 'c' in out:
+                    seen.setdefault(tuple(p), []).append(out['c'])
+            for p, obsv in seen.items():
+                if len(obsv) >= 2:
+                    m0 = [False] * len(obsv[0])
+                    add('history', 'PDFs.' + fam_name + '(history)', {'session': 'pdf-sequence%d' % si, 'call': list(p), 'occurrence': len(obsv)},
+                        {'fresh': {'d': obsv[0], 'm': m0}, 'a': {'d': obsv[1], 'm': m0}, 'b': {'d': obsv[-1], 'm': m0}}, cls='pdf-sequence')
+    # the 4/5-parameter gamma form with equal shapes and unequal scales inside Cache2D.integrate (fresh object)
+    for k, p in enumerate([[1.5, 1.5, 0.6, 2.5], [0.8, 0.8, 3.0, 0.7, 0.2]]):
+        c = small_cache2(4, 0.25, 8.0, extra=(2.5, 0.75))
+        add('integrate2d', 'Cache2D.integrate', {'theta': rat(2.5), 'ext': True, 'c2': enc_c2(c), 'pdf2': tab2('biv_ind_gamma', p, c.neg_gammas)},
+            obs(lambda: c.integrate(p, None, PDFs.biv_ind_gamma, 2.5, None)), cls='biv_ind_gamma/fixed-equal-shapes%d' % k)
     return recs, stats
 
 
